@@ -17,6 +17,15 @@ Theorem C02_graph : forall (A : nat -> nat -> R) r i j,
 Proof. exact graph_props. Qed.
 Print Assumptions C02_graph.
 
+(* for every mix ratio in [0,1] the entry lies between the pair's fuzzy intersection a*b and fuzzy union a+b-a*b and is
+   their convex combination with weight r (the interpolation the statement's three consequences follow from) *)
+Theorem C02_between : forall (A : nat -> nat -> R) r i j,
+  strengths01 A -> 0 <= r <= 1 ->
+    A i j * A j i <= graphf RNum r A i j <= A i j + A j i - A i j * A j i /\
+    graphf RNum r A i j = r * graphf RNum 1 A i j + (1 - r) * graphf RNum 0 A i j.
+Proof. exact graph_between. Qed.
+Print Assumptions C02_between.
+
 (* an entry of the assembled graph is non-zero only between a sample and one of its listed neighbours *)
 Theorem C02_support : forall (rows : list (list (Z * R))) r i j,
   graph RNum r (coo_of_rows RNum 0 rows) i j <> 0 ->
